@@ -104,7 +104,7 @@ def rename_refs(sc, old, new):
 
 
 MUTATIONS = ["drop_state_field", "drop_scope_field", "rename_state", "retarget", "retag", "wrong_type", "dup_names",
-             "empty_object", "empty_branches", "drop_state", "junk_member", "end_false", "catcher", "two"]
+             "empty_object", "empty_branches", "drop_state", "junk_member", "end_false", "catcher", "timestamp", "two"]
 
 
 def mutate(rng, m, op=None):
@@ -196,6 +196,12 @@ def mutate(rng, m, op=None):
             sts[name] = dict({"Type": "Parallel", "Branches": []}, **(keep or {"End": True}))
     elif op == "drop_state":
         del sts[name]
+    elif op == "timestamp":
+        keep = {k: v for k, v in st.items() if k in ("Next", "End")} if isinstance(st, dict) else {}
+        if not keep or st.get("Type") == "Choice":
+            keep = {"End": True}
+        sts[name] = dict({"Type": "Wait", rng.choice(["Timestamp", "Timestamp", "Seconds", "TimestampPath"]):
+                          rng.choice(JUNK + ["2023-11-14T22:13:20Z", "2023-13-45T99:00:00Z", "Z", 1.5])}, **keep)
     elif op == "junk_member":
         sts[rng.choice(["J", "", name + "j"])] = rng.choice(JUNK)
     elif op == "end_false":
@@ -297,6 +303,11 @@ def engine_case(definition=None, data=None, plans=None, raw=None, max_steps=1500
             s.publish_raw(q, body, message_id=mid)
         quiescent = run_fair(s, max_steps)
         res["quiescent"] = quiescent
+        # not quiescent but only timers fire any more and a task request is outstanding: an execution is
+        # legitimately waiting for a (far) task timeout — e.g. a poison body that is in fact a usable start event
+        vol0 = s.snapshot_volatile()
+        res["waiting"] = (not quiescent and all(st[0] == "timer" for st in s.trace[-200:])
+                          and bool(vol0 and vol0["pending"]))
         res["poison"] = view(s, ea) if ea else None
         rec = s.record(ea) if ea else None
         res["cause"] = (rec or {}).get("cause")
@@ -330,7 +341,9 @@ def judge(res, storable=True):
         bad.append("the healthy concurrent execution differs from its undisturbed run")
     if cj(res["after"]) != cj(base):
         bad.append("an execution started afterwards does not complete as usual")
-    if not res["quiescent"]:
+    if res.get("waiting"):
+        pass
+    elif not res["quiescent"]:
         bad.append("the engine never becomes quiescent (events are produced forever)")
     elif res["broker_unacked"] or res["queued"]:
         bad.append("a delivery is left unacknowledged")
@@ -349,13 +362,38 @@ def outcome(res):
     return p["status"]
 
 
+def has_empty_branches(x):
+    if isinstance(x, dict):
+        if x.get("Type") == "Parallel" and x.get("Branches") == []:
+            return True
+        return any(has_empty_branches(v) for v in x.values())
+    if isinstance(x, list):
+        return any(has_empty_branches(v) for v in x)
+    return False
+
+
+RUNNING_LAW = "its own execution is left RUNNING for ever instead of FAILED"
+
+
 def classify(f, case, impl, model):
+    """exact explanations of the open findings: all about definitions the validator *rejects*, stored anyway"""
     c = f.get("classifier")
-    if c == "broken-definition-leaves-execution-running":
-        # a definition the validator *rejects*, run anyway: the poison's own execution stays RUNNING
-        # (nothing else is broken) because notify raised before any handler
-        return (case.get("kind") == "poison-definition" and impl.get("validator") != []
-                and impl.get("laws") == ["its own execution is left RUNNING for ever instead of FAILED"])
+    if not (case.get("kind") == "poison-definition" and impl and isinstance(impl.get("validator"), list)
+            and impl["validator"] and not impl.get("errors")):
+        return False
+    probs = impl["validator"]
+    if c == "rejected-fanout-without-branches-leaves-execution-running":
+        # Parallel without (non-empty) Branches / Map whose iterator has no States: nothing is launched, nothing joins
+        return (impl.get("outcome") == "stuck" and impl.get("laws") == [RUNNING_LAW]
+                and any(("Branches" in p and ("empty" in p or "required field" in p)) or
+                        (("Iterator" in p or "ItemProcessor" in p) and "required field" in p) for p in probs))
+    if c == "rejected-empty-state-name-restarts-execution":
+        # a transition to "" / a branch without StartAt: notify takes the empty $$.State.Name for a fresh start
+        allowed = {RUNNING_LAW, "the engine never becomes quiescent (events are produced forever)",
+                   "an execution started afterwards does not complete as usual"}
+        return (impl.get("outcome") == "spinning" and set(impl.get("laws") or []) <= allowed
+                and impl.get("healthy", {}).get("status") == "SUCCEEDED"
+                and any('named ""' in p or 'required field "StartAt"' in p for p in probs))
     return False
 
 
@@ -427,6 +465,9 @@ def check_definition(chk, d, label, data, plans, vres, wf, case_extra=None):
     res = engine_case(definition=d, data=data, plans=plans)
     oc = outcome(res)
     laws = judge(res)
+    if wf and "a delivery is left unacknowledged" in laws:
+        # acknowledgement completeness of runs of well-formed machines is the subject of C03/C06, not of C18
+        laws.remove("a delivery is left unacknowledged")
     accepted = vres == ("ok", [])
     if oc in ("stuck", "spinning"):
         laws.append("its own execution is left RUNNING for ever instead of FAILED")
@@ -452,9 +493,13 @@ def run(chk):
     n_events = 40 if quick else 600               # runs, 3 poison events each
 
     cases = []          # (definition, label, input, plans)
+    corpus_events = []
     for c in common.load_corpus("C18"):
         if c.get("kind") in ("definition", "poison-definition"):
-            cases.append((c["definition"], "corpus", c.get("input", {"items": [1, 2]}), c.get("plans", {})))
+            plans = {k: [tuple(o) for o in v] for k, v in (c.get("plans") or {}).items()}
+            cases.append((c["definition"], "corpus", c.get("input", {"items": [1, 2]}), plans))
+        elif c.get("kind") == "poison-events":
+            corpus_events.append(c["events"])
     for i in range(n_base):
         g = machgen.Gen(rng, max_depth=rng.choice([0, 1, 2]))
         cases.append((g.machine(), "wellformed", machgen.gen_input(rng), g.fns))
@@ -544,14 +589,16 @@ def run(chk):
                        law="the model reaches an illegal site on a run the engine completes successfully")
 
     # poison events
-    for i in range(n_events):
-        evs = poison_events(rng, 3)
+    for i in range(n_events + len(corpus_events)):
+        evs = corpus_events[i] if i < len(corpus_events) else poison_events(rng, 3)
         raw = [(e["queue"], e["body"].encode("latin1"), e["message_id"]) for e in evs]
         res = engine_case(raw=raw, max_steps=800)
         for e in evs:
             chk.dist("poison.%s" % e["label"])
         chk.count(cj(evs), True)
         laws = judge(res)
+        if res.get("waiting"):
+            chk.dist("poison.run_left_an_execution_waiting_for_its_task")
         if laws:
             chk.report("impl-violates-law", {"kind": "poison-events", "events": evs},
                        impl={"errors": res["errors"][:1], "healthy": res["healthy"], "after": res["after"],
